@@ -172,6 +172,8 @@ struct PlainSink {
     max_lag: usize,
     /// worst lag in records at chunk-completion moments
     max_lag_recs: usize,
+    /// bytes that had been written when flush was last called: what a buffering destination has really received
+    flushed: usize,
     bad: Option<String>,
 }
 impl Write for PlainSink {
@@ -181,6 +183,13 @@ impl Write for PlainSink {
                 self.bad = Some(format!("wrong plaintext byte at {}", self.total + k));
                 break;
             }
+        }
+        // a destination that buffers until flush has, at this moment, received only what was flushed: records consumed
+        // beyond the last record it has received in full
+        if self.chunk > 0 && !buf.is_empty() {
+            let received_recs = self.flushed / self.chunk;
+            let behind = self.handed_recs.get().saturating_sub(received_recs + 1);
+            self.max_lag_recs = self.max_lag_recs.max(behind.saturating_sub(1));
         }
         self.total += buf.len();
         let lag = self.handed_plain.get().saturating_sub(self.total);
@@ -198,6 +207,7 @@ impl Write for PlainSink {
         Ok(buf.len())
     }
     fn flush(&mut self) -> std::io::Result<()> {
+        self.flushed = self.total;
         Ok(())
     }
 }
@@ -262,7 +272,7 @@ fn measure_point(rep: &Report, dir: &'static str, via: &'static str, size: usize
             }
         };
         let mut src = CtReader { header, hpos: 0, key, aad, len: size, chunk: piece.min(CS), next_plain: 0, idx: 0, cur: vec![], cpos: 0, done: false, handed_plain: handed.clone(), handed_recs: hrecs.clone() };
-        let mut sink = PlainSink { total: 0, len: size, chunk: piece.min(CS), handed_plain: handed, handed_recs: hrecs, max_lag: 0, max_lag_recs: 0, bad: None };
+        let mut sink = PlainSink { total: 0, len: size, chunk: piece.min(CS), handed_plain: handed, handed_recs: hrecs, max_lag: 0, max_lag_recs: 0, flushed: 0, bad: None };
         let (res, m) = mon::measured(|| run_rw(&sub, &mut src, &mut sink));
         if !res.is_ok() {
             rep.violation("mem/op-failed", case, format!("{} {} of {} bytes failed: {}", via, dir, size, res.brief()));
@@ -279,6 +289,7 @@ fn measure_point(rep: &Report, dir: &'static str, via: &'static str, size: usize
 pub fn run(rep: &'static Report) {
     let seed = rep.seed;
     rep.set_rule("E-GRID + MON: both directions x {hooked loop at production chunk size, key mode, password mode} x input sizes n*cs+d (n in {0,1,2,3,4,8,16,64}, thorough adds 1024 and 16384 = 1 GiB; d in {0,1}) x {full reads / 64 KiB chunks, 1 KiB pieces / 1 KiB chunks}, from non-allocating synthetic sources into counting sinks; peak live heap per call from the counting allocator and the read/write lag at every chunk completion. distinct non-trivial = distinct (direction, via, size, piece) points with >= 2 chunks");
+    rep.rule_add("Input trickling in as 300 pieces of 200 bytes with -o FILE: the file holds all but the last three pieces' worth before stdin is closed (4 commands). The in-process lag is measured against what had been FLUSHED.");
     rep.rule_add("A damaged later chunk followed by 1/64/512(2048) more chunks: same peak heap, at most 4 records taken after it. FILE and -o naming one file through ./, a hard link, a symlink: peak RSS stays at the baseline.");
     rep.rule_add("Input as a regular FILE with stdout blocked: the input descriptor's offset (/proc/PID/fdinfo) once the program rests in its blocked write, all four commands, 48-chunk files.");
     rep.rule_add("CLI streams through stdin/stdout, FIFO, -o fresh/pre-existing (growth polled), non-blocking stdout with a stalled reader; streams of 16 vs 256/1024 chunks of pairwise different lengths.");
@@ -556,6 +567,7 @@ pub fn run(rep: &'static Report) {
     cli_level(rep);
     cli_file_input_position(rep);
     cli_same_inode_rss(rep);
+    cli_trickle(rep);
     rep.set_exhaustive(true);
 }
 
@@ -930,6 +942,102 @@ fn cli_same_inode_rss(rep: &Report) {
         }
     }
     rep.extra("cli_same_inode_rss_kib", json!({"baseline":base,"variants":seen}));
+}
+
+/// Input that trickles in: 300 pieces of 200 bytes on stdin, one every 2 ms, output to `-o out.bin`. BEFORE stdin is closed the
+/// output file must already hold all but the last three pieces' worth (each piece is a chunk of its own on the way in; on
+/// the way out the input is a file of 300 chunks of 200 bytes delivered record by record).
+fn cli_trickle(rep: &Report) {
+    use rayon::prelude::*;
+    use std::process::{Command, Stdio};
+    let seed = rep.seed;
+    const N: usize = 300;
+    const PIECE: usize = 200;
+    let alice = Party::new(seed, "alice", "alicepw");
+    let bob = Party::new(seed, "bob", "bobpw");
+    let kr = crate::fx::keyring(&[(&alice, true), (&bob, true)]);
+    let p: Vec<u8> = (0..N * PIECE).map(pbyte).collect();
+    let salt = derive32(seed, "c11-trickle-salt");
+    let chunking = vec![PIECE; N];
+    let pf = r::write_pass_file_with_key(&r::pass_key(b"clipw", &salt), &salt, &p, &chunking);
+    let kf = r::write_key_file(&alice.sk, &bob.pk, &derive32(seed, "c11-trickle-e"), &derive32(seed, "c11-trickle-p"), &p, &chunking).unwrap();
+    // (name, args, password, header bytes delivered first, piece size on the wire, bytes of output per piece, output header)
+    let jobs: Vec<(&str, Vec<&str>, &str, Vec<u8>, usize, usize, usize)> = vec![
+        ("encrypt", vec!["encrypt", "-t", "bob", "-f", "alice", "-k", "kr.txt", "-o", "out.bin", "--env-pass"], "alicepw", p.clone(), PIECE, PIECE + 32, 132),
+        ("pass-encrypt", vec!["password", "encrypt", "-o", "out.bin", "--env-pass"], "clipw", p.clone(), PIECE, PIECE + 32, 36),
+        ("decrypt", vec!["decrypt", "-t", "bob", "-k", "kr.txt", "-o", "out.bin", "--env-pass"], "bobpw", kf.clone(), PIECE + 32, PIECE, 0),
+        ("pass-decrypt", vec!["password", "decrypt", "-o", "out.bin", "--env-pass"], "clipw", pf.clone(), PIECE + 32, PIECE, 0),
+    ];
+    jobs.par_iter().for_each(|(name, args, pw, data, wire_piece, out_piece, out_hdr)| {
+        rep.eval(1);
+        rep.nontrivial(format!("cli-trickle-{}", name).as_bytes());
+        let attempt = || -> Result<usize, String> {
+            let sc = Scratch::new();
+            sc.write("kr.txt", kr.as_bytes());
+            let mut child = Command::new(KESTREL).args(args).env_clear().env("KESTREL_PASSWORD", pw).current_dir(&sc.0).stdin(Stdio::piped()).stdout(Stdio::null()).stderr(Stdio::null()).spawn().map_err(|e| format!("spawn: {}", e))?;
+            let mut si = child.stdin.take().unwrap();
+            // the part before the first record (file header of the decrypt inputs) goes first, in one piece
+            let in_hdr = data.len() - N * wire_piece;
+            let mut pos = 0usize;
+            if in_hdr > 0 {
+                si.write_all(&data[..in_hdr]).map_err(|e| e.to_string())?;
+                pos = in_hdr;
+            }
+            while pos < data.len() {
+                let end = (pos + wire_piece).min(data.len());
+                if si.write_all(&data[pos..end]).is_err() {
+                    break;
+                }
+                let _ = si.flush();
+                pos = end;
+                std::thread::sleep(std::time::Duration::from_millis(2));
+            }
+            // everything has been offered; stdin stays open. The output must catch up to within three pieces.
+            // (pieces may merge into one read, so for the encryptors the plaintext covered by the complete records in the file
+            // is counted, not the file's size)
+            let _ = out_piece;
+            let need = (N - 3) * PIECE;
+            let covered = |f: &[u8]| -> usize {
+                if *out_hdr == 0 {
+                    return f.len();
+                }
+                let mut at = *out_hdr;
+                let mut sum = 0usize;
+                while at + 16 <= f.len() {
+                    let l = u32::from_be_bytes(f[at + 12..at + 16].try_into().unwrap()) as usize;
+                    if at + 16 + l + 16 > f.len() {
+                        break;
+                    }
+                    sum += l;
+                    at += 32 + l;
+                }
+                sum
+            };
+            let t0 = std::time::Instant::now();
+            let mut have = 0usize;
+            while t0.elapsed().as_millis() < 4000 {
+                have = covered(&std::fs::read(sc.0.join("out.bin")).unwrap_or_default());
+                if have >= need {
+                    break;
+                }
+                std::thread::sleep(std::time::Duration::from_millis(10));
+            }
+            drop(si);
+            let st = child.wait().map_err(|e| e.to_string())?;
+            if !st.success() {
+                return Err(format!("the command fails (exit {:?})", st.code()));
+            }
+            if have < need {
+                return Err(format!("4 s after all {} pieces of {} bytes had been delivered (stdin still open) the output file covered {} plaintext bytes; {} were due (everything but the last three pieces)", N, wire_piece, have, need));
+            }
+            Ok(have)
+        };
+        match attempt().or_else(|_| attempt()) {
+            Ok(_) => {}
+            Err(e) => rep.violation(&format!("cli-trickle/{}", name), json!({"kind":"cli-stall","cmd":name,"trickle":true}), format!("kestrel {} with input trickling in on stdin and -o out.bin: {}", name, e)),
+        }
+    });
+    rep.extra("cli_trickle", json!({"pieces":N,"piece_bytes":PIECE,"commands":4}));
 }
 
 fn cli_level(rep: &Report) {
